@@ -467,6 +467,11 @@ def run(ctx):
     for d in range(1, depth + 1):
         for h in itertools.product(ACTIONS, repeat=d):
             hists.append(dict(history=list(h), baselines={h[-1]: base[h[-1]]}))
+    if T:
+        # depth 4 over the recording actions (the ones that share process-level state with each other)
+        rec = [a for a in ACTIONS if a.startswith('R')]
+        for h in itertools.product(rec, repeat=4):
+            hists.append(dict(history=list(h), baselines={h[-1]: base[h[-1]]}))
     ctx.pmap(case_history, hists, chunk=2)
     copies = [dict(route=r, how=h, seed=ctx.seed) for r in ROUTES for h in ('copy', 'pickle')]
     ctx.pmap(case_copy, copies, chunk=1)
